@@ -65,6 +65,18 @@ let eval (op : string) (a : string list) : string =
           | _ -> failwith "cred") in
       let adv = { hs_max = opt_ver hs; auth_max = opt_ver au } in
       let fault = if fstep = "-" then None
+        else if String.length fkind > 4 && String.sub fkind 0 4 = "err:" then begin
+          (* "err:<code>:<null|empty|text|->": the response of that step as the broker encodes
+             it; the model decides on the error code alone (fault_of_response) *)
+          match String.split_on_char ':' fkind with
+          | [_; code; mode] ->
+            let msg = (match mode with
+                | "null" | "-" -> None | "empty" -> Some [] | "text" -> Some [z_of_int 65]
+                | _ -> failwith "message mode") in
+            fault_of_response (nat_of_int (int_of_z (z_of_hex fstep)))
+              { error_code = z_of_hex code; error_message = msg; resp_payload = [] }
+          | _ -> failwith "err kind"
+        end
         else Some (nat_of_int (int_of_z (z_of_hex fstep)), reaction_of_kind fkind) in
       render (run_case p adv k c fault)
     end
